@@ -6,6 +6,7 @@ package world
 
 import (
 	"bytes"
+	"compress/gzip"
 	"context"
 	"fmt"
 	"io"
@@ -170,6 +171,8 @@ type World struct {
 	dispCfgs []DispCfg
 	// OriginAge > 0: cacheable answers of the harness upstream carry an Age of their own
 	OriginAge int
+	// OriginGzip: cacheable answers of the harness upstream are gzip-encoded by the origin
+	OriginGzip bool
 }
 
 var gatePoints = map[string]bool{
@@ -543,9 +546,11 @@ type Result struct {
 	Label    string
 	Age      int
 	Ver      int
-	Body     []byte
-	Header   http.Header
-	Panic    interface{}
+	// BodyVer != 0: the bytes delivered belong to another version than the one the headers name
+	BodyVer int
+	Body    []byte
+	Header  http.Header
+	Panic   interface{}
 }
 
 // Do runs one request through the middleware chain on the calling goroutine
@@ -604,9 +609,13 @@ func (w *World) DoBody(proc, disp, method, host, uri string, hdr http.Header, cs
 		cancel()
 		req = req.WithContext(ctx)
 	}
+	// as net/http does: the request's context is cancelled when the handler has returned
+	reqCtx, reqDone := context.WithCancel(req.Context())
+	req = req.WithContext(reqCtx)
 	rec := httptest.NewRecorder()
 	res := &Result{Rid: ri.Rid}
 	func() {
+		defer reqDone()
 		defer func() {
 			if r := recover(); r != nil {
 				res.Panic = r
@@ -639,6 +648,34 @@ func (w *World) finish(ri *ReqInfo, code int, h http.Header, body []byte, res *R
 	if v := h.Get("X-Ver"); v != "" {
 		res.Ver, _ = strconv.Atoi(v)
 	}
+	// the bytes that were delivered name the version they belong to (answers of the harness upstream begin "v=<n> k=..."):
+	// what the client got is the version of the bytes, whatever the headers say
+	if res.Ver != 0 && len(body) > 0 && code == 200 && ri.Method != "HEAD" {
+		plain := body
+		if h.Get("Content-Encoding") == "gzip" {
+			if zr, err := gzip.NewReader(bytes.NewReader(body)); err == nil {
+				if dec, err := ioutil.ReadAll(zr); err == nil {
+					plain = dec
+				} else {
+					plain = nil
+				}
+			} else {
+				plain = nil
+			}
+		} else if h.Get("Content-Encoding") != "" {
+			plain = nil
+		}
+		if m := verRe.FindSubmatch(plain); m != nil && bytes.HasPrefix(plain, []byte("v=")) {
+			if bv, _ := strconv.Atoi(string(m[1])); bv != 0 && bv != res.Ver {
+				res.BodyVer = bv
+				res.Ver = bv
+			}
+		} else if w.OriginGzip && ri.Proc != "" {
+			// every answer of this behaviour's origin is either "v=..." or a gzip stream of that: bytes that are neither
+			// were made by pike
+			res.BodyVer = -1
+		}
+	}
 	errClass := "none"
 	label := res.Label
 	if res.Panic != nil {
@@ -656,6 +693,9 @@ func (w *World) finish(ri *ReqInfo, code int, h http.Header, body []byte, res *R
 		} else {
 			errClass = "own"
 		}
+	}
+	if res.BodyVer == -1 && errClass == "none" {
+		errClass = "own"
 	}
 	w.mu.Lock()
 	if label == "" {
@@ -1094,6 +1134,20 @@ func (w *World) upstreamHandler(rw http.ResponseWriter, req *http.Request) {
 			// the answer has spent some time in a cache nearer to the origin: the lifetime left is the same
 			h.Set("Cache-Control", "max-age="+strconv.Itoa(out.TTL+w.OriginAge))
 			h.Set("Age", strconv.Itoa(w.OriginAge))
+		}
+		if w.OriginGzip && ri.Proc != "" && out.Body == nil {
+			// an origin that compresses its answers itself
+			h.Set("Content-Encoding", "gzip")
+			h.Set("Content-Type", "text/plain")
+			h.Set("Vary", "Accept-Encoding")
+			var zb bytes.Buffer
+			zw := gzip.NewWriter(&zb)
+			w.mu.Lock()
+			nv := w.nver + 1
+			w.mu.Unlock()
+			_, _ = zw.Write([]byte(fmt.Sprintf("v=%d k=%s r=%d %s %s %s %s", nv, ri.Key, ri.Rid, req.Method, req.Host, req.URL.RequestURI(), strings.Repeat("gz ", 400))))
+			_ = zw.Close()
+			out.Body = zb.Bytes()
 		}
 		if w.CorruptGzip && ri.Proc != "" && out.Body == nil {
 			// an origin that labels as gzip something that is not: delivered as it is to clients accepting gzip
